@@ -430,6 +430,15 @@ class StmtMixin:
                         in_range=lambda pos, q: z3.And(lo <= pos.t, pos.t < hi),
                         elem=lambda pos, q: pos, advance=lambda pos, el, q: T.sv_int(pos.t + 1),
                         end=lambda q: T.sv_int(hi2))
+        if isinstance(e, ast.Call) and isinstance(e.func, ast.Name) and e.func.id == "enumerate" and len(e.args) == 1 and not e.keywords:
+            inner = self.iter_value(e.args[0], p)
+            if inner["kind"] != "pos" or not isinstance(inner["value"].ty, (T.Seq,)) and inner["value"].ty != T.TUP:
+                raise Unsupported("enumerate of a non-positional collection")
+            def elem(pos, q):
+                el = inner["elem"](pos, q)
+                pt = T.Pair(T.INT, el.ty)
+                return T.scalar(pt, pt.mk(pos.t, el.t))
+            return dict(inner, elem=elem)
         items_of = None
         if isinstance(e, ast.Call) and isinstance(e.func, ast.Attribute) and e.func.attr == "items" and not e.args:
             m = self.ev(e.func.value, p)
